@@ -423,6 +423,7 @@ def gen_ct_history(r, name):
     promote decision, hcreate = allocation at the end of file, htrunc)"""
     lines = ["history " + name, "open 0 %d %d" % (r.choice([4, 5, 16]), r.choice([0, 1]))]
     keys, handles = [], {}      # handles: slot -> dict(key, app)
+    ndup = 0
     for _ in range(r.randrange(10, 30)):
         a = r.random()
         if (a < 0.25 or not handles) and len(keys) < 4 and len(handles) < 6:
@@ -443,8 +444,17 @@ def gen_ct_history(r, name):
             if r.random() < 0.6:
                 lines.append("seek %d %d %d" % (h, r.randrange(0, 25), 0))
             lines += ["tell %d" % h, "layout 0", "write %d %s" % (h, hexs(rbytes(r, r.choice([1, 2, 5, 9, 30])))), "layout 0"]
-        elif a < 0.90:
+        elif a < 0.86:
             lines += ["layout 0", "trunc %d %d" % (h, r.randrange(0, 12)), "layout 0"]
+        elif a < 0.93:
+            if r.random() < 0.7:
+                lines.append("seek %d %d %d" % (h, r.randrange(0, 25), 0))
+            lines += ["tell %d" % h, "layout 0", "read %d %d" % (h, r.choice([0, 1, 3, 8, 40]))]
+        elif a < 0.97:
+            k = handles[h]["key"]
+            ndup += 1
+            newref = 100 + ndup if r.random() < 0.8 else r.choice(keys)[1]
+            lines += ["layout 0", "dupdd 0 %d %d %d %d" % (k[0], newref, k[0], k[1]), "layout 0"]
         else:
             lines.append("end %d" % h)
             del handles[h]
@@ -506,6 +516,25 @@ def check_ct(ctx, hists):
             pos = int(R[i - 2].split()[1])
             n = 0 if t[2] == "-" else len(t[2]) // 2
             steps.append((i, "W %d %d %d %d %d %d" % (off, ln, b[0], pos, 1 if app.get(h) else 0, n), ("write", a, key)))
+        elif t[0] == "read" and flat[i - 1].startswith("layout") and flat[i - 2].startswith("tell"):
+            h = int(t[1])
+            b = lay(R[i - 1])
+            key = slot_key.get(h)
+            if not b or key not in b[1] or not R[i - 2].startswith("ok"):
+                continue
+            tag, off, ln = b[1][key]
+            if tag & 0x4000 or off < 0:
+                continue
+            steps.append((i, "R %d %d %d %d %d" % (off, ln, b[0], int(R[i - 2].split()[1]), int(t[2])), ("read", b, key)))
+        elif t[0] == "dupdd" and flat[i - 1].startswith("layout"):
+            b, a = lay(R[i - 1]), lay(R[i + 1])
+            newk, oldk = (int(t[2]), int(t[3])), (int(t[4]), int(t[5]))
+            if not b or not a or oldk not in b[1]:
+                continue
+            tag, off, ln = b[1][oldk]
+            if tag & 0x4000 or off < 0:
+                continue
+            steps.append((i, "D %d %d %d %d" % (off, ln, b[0], 1 if newk in b[1] else 0), ("dup", a, newk)))
         elif t[0] == "trunc" and flat[i - 1].startswith("layout"):
             h = int(t[1])
             b, a = lay(R[i - 1]), lay(R[i + 1])
@@ -544,6 +573,12 @@ def check_ct(ctx, hists):
             else:
                 ok = r == "ok %s" % mt[1] and ent is not None and not ent[0] & 0x4000 and \
                     ent[2] == int(mt[2]) and fend_a == int(mt[3])
+        elif kind == "read":
+            ok = (r == "fail") if mt[0] == "fail" else (r.split()[:2] == ["ok", mt[1]])
+        elif kind == "dup":
+            ok = (r == "fail") if mt[0] == "fail" else (r == "ok" and ent is not None and not ent[0] & 0x4000 and
+                                                        ent[1] == int(mt[1]) and ent[2] == int(mt[2]) and
+                                                        fend_a - int(mt[3]) in (0, 6 + 12 * ndds_of[i]))   # a new DD block may be needed
         else:
             ok = (r == "fail") if mt[0] == "fail" else (r == "ok %s" % mt[1] and ent is not None and ent[2] == int(mt[1]))
         if not ok:
